@@ -16,7 +16,7 @@ ID = 'C06'
 LEVEL = 'exploration'
 RULE = ('Engine A: lattice of experiment frames (5 shapes x noise patterns x n_pre in {3,4,6,8,12} x n_test in {1,2,4} x '
         'cooldown in {0,2} x use_cooldown) x ALL layout variants (geos per group 1-3 with dyadic splits, extra unassigned '
-        'geo, unassigned-period dates, 3 row orders, custom column names / labels) x summary settings (level in '
+        'geo, unassigned-period dates, 3 row orders, custom column names / group labels, custom non-monotone period labels) x summary settings (level in '
         '{0.2,0.5,0.8,0.9,0.95} x tails x threshold in {0,+-c} x rescale in {0.5,1,4} x report in {last,all}; quick uses '
         'a 32-setting sub-grid, thorough all 180). Oracle: degrees of freedom, location and scale on EVERY analysed '
         'day against the closed form (OLS + Kerman 2017 eq. 5); every layout variant gives the identical distribution; '
@@ -30,7 +30,8 @@ ASSUMPTIONS = ['value lattice: integer totals (multiples of 4) from 5 shapes + s
 
 LAYOUTS = [dict(), dict(gc=2, gt=3), dict(gc=3, gt=2, order='reversed'), dict(extra_geo=True, order='mixed'),
            dict(extra_dates=[['lead', -1]]), dict(extra_dates=[['trail', -1]], gc=2), dict(extra_dates=[['lead', -1], ['trail', 3]], extra_geo=True, gt=2, order='reversed'),
-           dict(names={'date': 'day', 'group': 'grp', 'period': 'per', 'response': 'sales', 'geo': 'Geo'}, labels={'control': 7, 'treatment': 5})]
+           dict(names={'date': 'day', 'group': 'grp', 'period': 'per', 'response': 'sales', 'geo': 'Geo'}, labels={'control': 7, 'treatment': 5}),
+           dict(period_labels={0: 12, 1: 10, 2: 11, -1: 3}, extra_dates=[['lead', -1]], gc=2, order='mixed')]
 LEVELS = [0.2, 0.5, 0.8, 0.9, 0.95]
 SETTINGS_ALL = [dict(level=l, tails=t, threshold=th, rescale=r, report=rep) for l in LEVELS for t in (1, 2)
                 for th in (0.0, 25.0, -40.0) for r in (0.5, 1.0, 4.0) for rep in ('last', 'all')]
@@ -53,6 +54,8 @@ def cases(tier, seed):
 def fit(spec, use_cd, layout):
     x, y, periods = frames.series(spec)
     kw = {k: v for k, v in layout.items() if k in ('gc', 'gt', 'extra_geo', 'order', 'names', 'labels')}
+    if layout.get('period_labels'):
+        kw['period_labels'] = {int(k): v for k, v in layout['period_labels'].items()}
     if layout.get('extra_dates'):
         kw['extra_dates'] = [tuple(e) for e in layout['extra_dates']]
     df = frames.build(x, y, periods, **kw)
@@ -66,6 +69,9 @@ def fit(spec, use_cd, layout):
         target = nm['response']
     else:
         target = 'response'
+    if layout.get('period_labels'):
+        pl = {int(k): v for k, v in layout['period_labels'].items()}
+        fkw.update(period_pre=pl[0], period_test=pl[1], period_cooldown=pl[2], period_unassigned=pl[-1])
     m.fit(df, target, **fkw)
     return m, x, y, periods
 
